@@ -40,6 +40,13 @@ func (r *verifRule) ShallRotate(size int64) bool {
 	return verifChoose("rotate", 2) == 1
 }
 
+// H19i: name and length of a file that carried a future backup's name before
+// the logger started ("" = none).
+var (
+	verifForeignName string
+	verifForeignLen  int
+)
+
 // verifCheckLog: the directory holds the current file and backups only; read in
 // rotation order (backup names are chronological) and then the current file,
 // the files are exactly the records in order, each record entirely in one file.
@@ -63,6 +70,12 @@ func verifCheckLog(dir, cur string, recs [][]byte, sizeLimit int64, when string)
 	for _, f := range files {
 		c, err := os.ReadFile(f)
 		verifAssert(err == nil, "log files are readable")
+		if f == verifForeignName && len(c) == verifForeignLen {
+			// H19i: the foreign file that was there before the logger started has not
+			// been replaced by a backup (it is longer than anything the logger writes
+			// within the bounds): it is none of the logger's files.
+			continue
+		}
 		pos, last := 0, 0
 		for pos < len(c) {
 			if ri >= len(recs) || pos+len(recs[ri]) > len(c) {
@@ -85,10 +98,24 @@ func verifCheckLog(dir, cur string, recs [][]byte, sizeLimit int64, when string)
 }
 
 // H19a: write/rotate histories over the (model) file system.
-func Verif_C19_rotate() {
+func Verif_C19_rotate() { verifRotateHistories(verifCase(12), 0) }
+
+// H19i: the same histories with a foreign file that already carries the name
+// the first (foreignAt 1) or the second (foreignAt 2) rotation's backup will
+// get. The unchanged code renames the current file over it (os.Rename
+// replaces); the statement is silent about the foreign content, so the oracle
+// accepts the file as long as it is untouched and as a backup once it has
+// been replaced — what is checked is that every record written through the
+// logger is still, complete and in order, in the current file or exactly one
+// backup.
+func Verif_C19_rotate_foreign() {
+	c := verifCase(24)
+	verifRotateHistories(c%12, 1+c/12)
+}
+
+func verifRotateHistories(cs, foreignAt int) {
 	k := verifParam("records")
 	maxLen := verifParam("maxLen")
-	cs := verifCase(12)
 	ruleKind := cs % 3 // 0 harness rule, 1 SizeLimitRotateRule, 2 DailyRotateRule
 	compress := (cs/3)%2 == 1
 	preExisting := cs/6 == 1
@@ -119,8 +146,33 @@ func Verif_C19_rotate() {
 	default:
 		rule = DefaultRotateRule(cur, "-", 0, compress)
 	}
+	// The names of the first two backups, as the stubbed clock readers and the
+	// rules produce them (checked against l.backup below).
+	var backups [2]string
+	switch ruleKind {
+	case 0:
+		backups = [2]string{cur + "-b01", cur + "-b02"}
+	case 1: // readings 1 (rule's rotatedTime), 2 (init), 3 (first rotation), 4 (MarkRotated)
+		backups = [2]string{dir + "/cur-2009-11-10T23:00:02Z.log", dir + "/cur-2009-11-10T23:00:03Z.log"}
+	default: // named after the day the records were written; the first rotation happens on day 1
+		backups = [2]string{cur + "-2009-11-10", cur + "-2009-11-11"}
+	}
+	if foreignAt > 0 {
+		verifForeignName = backups[foreignAt-1]
+		verifForeignLen = 2 + k*maxLen + 1 // longer than all the logger can write within the bounds
+		foreign := make([]byte, verifForeignLen)
+		for i := range foreign {
+			foreign[i] = '#'
+		}
+		verifAssume(os.WriteFile(verifForeignName, foreign, 0o600) == nil)
+	}
 	l, err := NewLogger(cur, rule, compress)
 	verifAssert(err == nil && l != nil, "NewLogger succeeds")
+	if foreignAt > 0 {
+		verifAssert(l.backup == backups[0], "harness: the first backup's name is the predicted one")
+	}
+	rotations := 0
+	lastBackup := l.backup
 
 	for j := 0; j < k; j++ {
 		if ruleKind == 2 && verifChoose("midnight", 2) == 1 {
@@ -141,9 +193,26 @@ func Verif_C19_rotate() {
 				verifReach("compressed")
 			}
 		}
+		if foreignAt > 0 {
+			if l.backup != lastBackup { // a rotation recorded the next backup's name
+				lastBackup = l.backup
+				rotations++
+				if rotations == 1 {
+					verifAssert(l.backup == backups[1], "harness: the second backup's name is the predicted one")
+				}
+				if rotations == foreignAt {
+					verifReach("foreign-name-used")
+				}
+			}
+		}
 		verifCheckLog(dir, cur, recs, sizeLimit, "after a write")
 		verifAssert(l.fp != nil, "the logger has an open current file after every write (also right after a rotation)")
 	}
 	l.Close()
 	verifCheckLog(dir, cur, recs, sizeLimit, "after Close")
+	if foreignAt > 0 && rotations < foreignAt {
+		if c, err := os.ReadFile(verifForeignName); err == nil && len(c) == verifForeignLen {
+			verifReach("foreign-kept")
+		}
+	}
 }
